@@ -9,5 +9,8 @@ TEXT = {
     "C07": {"technique": "stateful property-based testing (rapid) with structured and byte-level hostile inputs; oracle = no panic under recover() and liveness of the next empty block; native go fuzzing of DeliverTx in the thorough tier",
             "level_text": "exploration: hostile generated histories (all tx types with semantic perturbations, bit flips, truncation, trailing bytes, replays, arbitrary vote sets, evidence against any address, time jumps). Every ABCI call runs under recover(); a panic anywhere is a violation.",
             "level_note": "os.Exit paths (passing halt vote, unknown version) and a missing BIP/USDT pool are excluded by construction (documented preconditions)."},
+    "C09": {"technique": "stateful property-based testing (rapid) with injected restarts; differential oracle against a never-restarted twin instance",
+            "level_text": "exploration: generated histories in which the node object is dropped and re-created on the same storage at drawn block boundaries (also several times in a row); a twin that never restarts receives the same requests. Every response, app hash and query result must be identical.",
+            "level_note": "storage is tm-db MemDB kept across restarts (the same DB interface the node uses with LevelDB); restarts are only inserted after the first committed block; histories end if the validator set becomes empty (Tendermint cannot continue there)."},
 }
 NOT_APPLICABLE = {}
